@@ -460,6 +460,9 @@ func GenEs(r *sx.Rng, idx int) sx.Tree {
 	if idx%11 == 4 {
 		return genHeld(r)
 	}
+	if idx%307 == 5 {
+		return genWholeOnce(r) // a few per quick run (period coprime to the shard count): one 5 s back-off each, overlapped across shards
+	}
 	nops := int(r.Range(0, 12))
 	if r.Chance(10) {
 		nops = int(r.Range(12, 24))
@@ -539,4 +542,27 @@ func genHeld(r *sx.Rng) sx.Tree {
 		}
 	}
 	return sx.T(sx.Ints(batchSize, maxRetries, 8, 40), sx.T(ops...), sx.T(script...), sx.L(3))
+}
+
+// genWholeOnce: ONE whole-request error (one 5 s back-off) followed by retryable per-document failures with
+// bulk-index-max-retries 1, so that it matters whether the whole-request failure used up a retry.
+func genWholeOnce(r *sx.Rng) sx.Tree {
+	batchSize := r.Range(1, 3)
+	n := int(r.Range(1, batchSize)) // one batch, full or flushed by the timer
+	ops := []sx.Tree{}
+	script := []sx.Tree{}
+	victim := r.Intn(n)
+	for i := 0; i < n; i++ {
+		ops = append(ops, sx.Ints(0, int64(i), r.Range(0, 2), int64(r.Intn(2)), r.Range(0, 99)))
+		if i == victim {
+			script = append(script, sx.T(sx.L(int64(i)), sx.Ints(oWhole, oRetry, sx.Pick(r, int64(oRetry), int64(oOK), int64(oNoErr)), sx.Pick(r, int64(oOK), int64(oRetry)))))
+		} else {
+			outs := []int64{sx.Pick(r, int64(oOK), int64(oRetry), int64(oMapping))}
+			for j := 0; j < 3; j++ {
+				outs = append(outs, sx.Pick(r, int64(oOK), int64(oRetry), int64(oRetry), int64(oMapping)))
+			}
+			script = append(script, sx.T(sx.L(int64(i)), sx.Ints(outs...)))
+		}
+	}
+	return sx.T(sx.Ints(batchSize, 1, r.Range(1, 2), 40), sx.T(ops...), sx.T(script...), sx.L(0))
 }
